@@ -199,7 +199,7 @@ class Stack:
 
     def add_timer(self, delta, cb, cookie=None):
         self.sim.trace.append((self.sim.now, self.idx, 'api', 'add_timer', cb.cid, us(delta), 1 if cb.ret else 0))
-        return self.call(('add_timer', self.sim.now, us(delta), cb.cid), lambda: self.ecu.add_timer(delta, cb, cookie))
+        return self.call(('add_timer', self.sim.now, us(delta), cb.cid, 1 if cb.ret else 0), lambda: self.ecu.add_timer(delta, cb, cookie))
 
     def remove_timer(self, cb):
         self.sim.trace.append((self.sim.now, self.idx, 'api', 'remove_timer', cb.cid))
@@ -213,6 +213,21 @@ class Stack:
     def unsubscribe(self, cb):
         self.sim.trace.append((self.sim.now, self.idx, 'api', 'unsubscribe', cb.cid))
         return self.call(('unsubscribe', self.sim.now, cb.cid), lambda: self.ecu.unsubscribe(cb))
+
+    def add_ca(self, name_value, addr, bypass):
+        import j1939
+        def f():
+            ca = j1939.ControllerApplication(j1939.Name(value=name_value), addr, bypass_address_claim=bypass)
+            self.ecu.add_ca(controller_application=ca)
+            self.cas.append(ca)
+        self.call(('add_ca', name_value, -1 if addr is None else addr, 1 if bypass else 0), f)
+        return self.cas[-1]
+
+    def ca_subscribe(self, i, cb):
+        self.call(('ca_subscribe', i, cb.cid), lambda: self.cas[i].subscribe(cb))
+
+    def ca_subscribe_request(self, i, cb):
+        self.call(('ca_subreq', i, cb.cid), lambda: self.cas[i].subscribe_request(cb))
 
     # ------------------------------------------------------------------ state summary
     def summary(self):
@@ -232,7 +247,7 @@ class Stack:
         for ev in e._timer_events:
             s += [int(ev['deadline']), us(ev['delta_time'])]
         s.append(len(e._subscribers))
-        s.append(len(e._job_thread_wakeup_queue.items))
+        s.append(e._job_thread_wakeup_queue.puts)
         for ca in self.cas:
             da = ca._device_address
             s += [ca._device_address_state, -1 if da is None else da, ca._device_address_announced, 1 if ca._started else 0]
